@@ -154,6 +154,9 @@ class Gen:
             return ["lit", rng.choice(STRINGS), "none", ["some", rng.choice(LANGS)]]
         if r < 0.86:
             p, u, l = rng.choice(FOREIGN_DT)
+            dflt = self.im.cont(c)._namespaces.get_default_namespace() if c is not None else None
+            if dflt is not None and rng.random() < 0.3:
+                p, u, l = "", dflt.uri, "DefaultType"        # a datatype in the scope's default namespace
             return ["lit", rng.choice(STRINGS), ["qn", p, u, l], "none"]
         if r < 0.98:
             # typed literal of a natively supported datatype, valid or not
